@@ -42,7 +42,7 @@ func init() {
 			"the wall clock only moves forward inside a bubble; TLS is not simulated",
 			"the attacker tries MD5/hex/base64 of the counter values within +-64 of identifiers disclosed to it",
 		},
-		RequiredProbes: []string{"c11.allowed", "c11.denied", "c11.after-edit", "c11.held-session-after-edit", "c11.entry.wsp-play.granted", "c11.entry.wsp-play.refused", "c11.entry.ws-flv.granted", "c11.entry.ws-flv.refused", "c11.entry.hls-segment.granted", "c11.entry.rtsp-publish.granted", "c11.entry.rtsp-publish.refused", "c11.wsp-foreign-channel-tried", "c11.user-switched-mid-session", "c11.administrator-demoted"},
+		RequiredProbes: []string{"c11.allowed", "c11.denied", "c11.after-edit", "c11.held-session-after-edit", "c11.entry.wsp-play.granted", "c11.entry.wsp-play.refused", "c11.entry.ws-flv.granted", "c11.entry.ws-flv.refused", "c11.entry.hls-segment.granted", "c11.entry.rtsp-publish.granted", "c11.entry.rtsp-publish.refused", "c11.wsp-foreign-channel-tried", "c11.user-switched-mid-session", "c11.administrator-demoted", "c11.connection-token-list"},
 	})
 }
 
@@ -367,7 +367,7 @@ func buildC11(tier string) sim.Scenario {
 			user := names[tp.Choose(len(names))]
 			u := users[user]
 			path := paths[tp.Choose(len(paths))]
-			kind := tp.Choose(15)
+			kind := tp.Choose(16)
 			// users whose password or existence changed need a fresh login; the old token keeps naming the user
 			tok := tokens[user][0]
 			switch kind {
@@ -550,12 +550,19 @@ func buildC11(tier string) sim.Scenario {
 				}
 				verdict("ws-flv", user, "pull", path, got, fmt.Sprintf("handshake status %d", st))
 				w.Sleep(time.Second)
-			case 10, 12: // WSP: control channel, data channel, DESCRIBE/SETUP/PLAY wrapped (12: the URL carries a .ts suffix, as a segment URL would)
+			case 10, 12, 15: // WSP: control channel, data channel, DESCRIBE/SETUP/PLAY wrapped (12: the URL carries a .ts suffix, as a segment URL would;
+				// 15: the same with the Connection header some browsers send, a token list)
 				suffix, ename := "", "wsp-play"
 				if kind == 12 {
 					suffix, ename = ".ts", "wsp-play(.ts suffix)"
 				}
+				if kind == 15 {
+					suffix, ename = []string{".ts", "", ".flv"}[tp.Choose(3)], "wsp-play(Connection: keep-alive, Upgrade)"
+					sw.wsConnection = "keep-alive, Upgrade"
+					w.Probe("c11.connection-token-list")
+				}
 				cl, err := sw.wspConnect(fmt.Sprintf("wsp%d", q), path+suffix+"?token="+tok)
+				sw.wsConnection = ""
 				got := false
 				detail := ""
 				if err != nil {
@@ -578,6 +585,12 @@ func buildC11(tier string) sim.Scenario {
 						detail = fmt.Sprintf("last status %d", m.Status)
 					}
 					cl.close()
+				}
+				if kind == 15 && !got {
+					// whether the server takes such a handshake for a WebSocket upgrade at all is not an authorization matter:
+					// only a grant is judged
+					w.Sleep(time.Second)
+					break
 				}
 				verdict(ename, user, "pull", path, got, detail)
 				w.Sleep(time.Second)
